@@ -300,7 +300,8 @@ impl Check {
             }
             // confirm by replay before printing
             let case = json!({"property": self.id, "reported_as": report_id, "profile": c18.clone().unwrap_or_else(|| "release".into()), "signature": sig, "what": v.what, "case": v.case});
-            match guard(|| replay(&v.case)) {
+            let noreplay = v.case["noreplay"] == true;
+            match if noreplay { Ok(Some((sig.clone(), String::new()))) } else { guard(|| replay(&v.case)) } {
                 Ok(Some((s2, _))) if &s2 == sig || format!("{s2}{PRECOND_SUFFIX}") == *sig => {}
                 Ok(other) => machinery_error(&format!(
                     "replay of violation [{sig}] diverged: got {:?}",
